@@ -19,6 +19,21 @@ for _a in ("taxa", "vrnt", "trait"):
     _names = sorted(set(TAB[_a]["name"]))
     TAB[_a]["namerank"] = [_names.index(x) for x in TAB[_a]["name"]]
 
+# the same table at genome scale: physical positions of hundreds of megabases (chromosome number x position span exceeds 2**31),
+# held -- like the chromosome labels -- in 32-bit integers, as marker files usually deliver them
+import copy as _copy
+TAB_SMALL = TAB
+TAB_GENOME = _copy.deepcopy(TAB)
+TAB_GENOME["vrnt"]["pos"] = [x * 40000000 for x in TAB["vrnt"]["pos"]]
+LABEL_INT = {"dtype": "int64"}
+
+
+def use_table(which):
+    global TAB
+    TAB = TAB_GENOME if which == "genome" else TAB_SMALL
+    LABEL_INT["dtype"] = "int32" if which == "genome" else "int64"
+
+
 FIELDS = {"taxa": ["name", "grp"], "vrnt": ["chr", "pos", "name", "gen", "xo", "hap", "alt", "ref", "mask"],
           "trait": ["name"]}
 ATTR = {("taxa", "name"): "taxa", ("taxa", "grp"): "taxa_grp", ("vrnt", "chr"): "vrnt_chrgrp", ("vrnt", "pos"): "vrnt_phypos",
@@ -165,7 +180,7 @@ def label_array(a, f, ids):
         return np.array(vals, dtype=float) / 100.0
     if f == "mask":
         return np.array(vals, dtype=bool)
-    return np.array(vals, dtype="int64")
+    return np.array(vals, dtype=LABEL_INT["dtype"] if a == "vrnt" and f in ("chr", "pos") else "int64")
 
 
 def proj_label(f, arr):
